@@ -214,6 +214,13 @@ def lww_route(ctx):
                                         ('CvRDT', 'validate_merge', {'validate_update'}, ['C17', 'C11']), ('CmRDT', 'validate_op', {'validate_update'}, ['C16', 'C11'])):
         body = ctx.method(LWWREG, trait, name)
         ok, msg = _routes_to(facts, ctx, body, targets, True, name, props)
+        if ok and targets == {'validate_update'}:
+            # .. and the verdict of the delegate is what comes back: an Err is never dropped
+            it_ = interp(facts, body)
+            vb_ = [bb for bb, c in it_.calls.items() if cinfo(c.cid)['local'] and cinfo(c.cid)['name'] in ('validate_update', 'validate_merge', 'validate_op')]
+            esc = err_verdict_escapes(facts, body, it_, vb_) if vb_ else []
+            if esc:
+                ok, msg = False, 'can return %s although the delegate reported a conflict' % esc
         if not ok and targets == {'update'}:
             # no delegation to update: the function may do the guarded store itself (written out, or a shared helper inlined)
             errs, det, found = _lww_assign_clause(facts, body)
